@@ -88,6 +88,11 @@ Theorem C40_stuck_means_drained : forall n s, greach n s -> gstuck s ->
   ((exists ip r, In (InG ip Parked r) (thr s)) -> changed s = []).
 Proof. exact g_stuck_spec. Qed.
 
+(* the boolean test the model runner evaluates at every recorded observation "nothing moves any more"
+   (printed as stuck=1) is exactly gstuck: so at such an observation C40_stuck_means_drained applies *)
+Theorem C40_quiescent_is_stuck : forall s, quiescent s = true <-> gstuck s.
+Proof. exact quiescent_gstuck. Qed.
+
 (* ---- non-vacuity ---- *)
 (* a fetcher parks on the empty set, a reporter inserts 7 and broadcasts, the fetcher wakes and takes 7 *)
 Definition ex_run : list label :=
@@ -134,3 +139,4 @@ Print Assumptions C40_no_lost_wakeup.
 Print Assumptions C40_waiting_fetch_progress.
 Print Assumptions C40_internal_runs_bounded.
 Print Assumptions C40_stuck_means_drained.
+Print Assumptions C40_quiescent_is_stuck.
